@@ -139,3 +139,44 @@ Proof.
   destruct (find_dr (ep e) (d_store s)) as [r|] eqn:F; [|congruence].
   rewrite <- (find_dr_dp _ _ _ F). apply in_map. now apply (find_in _ _ _ F).
 Qed.
+
+(* ---- clock advance ---------------------------------------------------------------------------------------------- *)
+Lemma lents_mono u u' st q : u <= u' -> lents u' st q = filter (lv u') (lents u st q).
+Proof.
+  intros H. unfold lents. destruct (find_dr q st) as [r|]; [|reflexivity]. rewrite filter_filter.
+  apply filter_ext. intros e. unfold lv. destruct (Z.ltb_spec u' (dexp e)); [|now rewrite andb_false_r].
+  replace (u <? dexp e) with true by (symmetry; apply Z.ltb_lt; lia). reflexivity.
+Qed.
+
+Lemma vcert_raw u st q :
+  vcert u st q = match lents u st q with [] => None | _ => match find_dr q st with Some r => dcert r | None => None end end.
+Proof. unfold vcert, lents. now destruct (find_dr q st). Qed.
+
+Lemma dstep_advance a s d :
+  AInv a -> DInv s -> Rel a s -> dop_ok (d_now s) (OAdvance d) -> dstep_ok a s (OAdvance d).
+Proof.
+  intros HA HD [Hn HR] [Hd0 [Hdw Hdb]]. unfold dstep_ok. cbn [d_step a_step]. unfold a_advance.
+  destruct HD as [H1 H2 H3 H4 H5]. destruct H4 as [C1 [C2 C3]].
+  assert (Hc' : clk (d_now s + d)) by (split; [now apply whole_add|split; lia]).
+  assert (HU : unix (d_now s) <= unix (d_now s + d)) by (apply unix_mono; lia).
+  assert (HAI : AInv (mk_norm (a_now a + d) (a_ents a) (a_recs a))).
+  { apply mk_norm_inv; [apply HA| |apply HA]. intros e He _. now apply (AI_good a HA). }
+  assert (Hself : forall q x, la (a_ents (mk_norm (a_now a + d) (a_ents a) (a_recs a))) q x =
+                              ld (lents (unix (d_now s + d)) (d_store s) q) x).
+  { intros q x. unfold la, ld. rewrite (mk_norm_find_ent _ _ _ q x (AI_keys a HA)).
+    rewrite (lents_mono _ _ _ q HU). rewrite (find_de_filter _ x _ (proj2 (lents_sorted _ _ q H3))).
+    rewrite Hn. apply (olive_match (d_now s + d)); [exact Hc'| |exact (proj1 (HR q) x)].
+    intros e Fe. apply find_ent_some in Fe. apply (AI_good a HA e (proj1 Fe)). }
+  split; [exact HAI|split; [|split; [|split; [reflexivity|intros q Hq; right; exact Hq]]]].
+  - constructor; cbn [d_cache d_cached d_store d_now d_look]; assumption.
+  - split; [cbn [d_now]; rewrite mk_norm_now; lia|]. cbn [d_now d_store]. intros q. split; [apply Hself|].
+    rewrite (mk_norm_find_rec _ _ _ q (AI_rkeys a HA)). rewrite (proj2 (HR q)).
+    pose proof (has_peer_rel _ _ _ _ (Hself q)) as HP. rewrite !vcert_raw. rewrite (lents_mono _ _ _ q HU).
+    rewrite (lents_mono _ _ _ q HU) in HP.
+    destruct (filter (lv (unix (d_now s + d))) (lents (unix (d_now s)) (d_store s) q)) as [|d0 t0] eqn:EL.
+    + destruct (has_peer q (a_ents (mk_norm (a_now a + d) (a_ents a) (a_recs a)))) eqn:Hh; [exfalso; now apply (proj1 HP)|].
+      now destruct (lents (unix (d_now s)) (d_store s) q), (find_dr q (d_store s)) as [[? ? [?|] ?]|].
+    + rewrite (proj2 HP) by discriminate.
+      destruct (lents (unix (d_now s)) (d_store s) q) as [|d1 t1]; [discriminate|].
+      now destruct (find_dr q (d_store s)) as [[? ? [?|] ?]|].
+Qed.
